@@ -22,11 +22,14 @@ QUICK_RUNS = 1200
 THOROUGH_SECONDS = 480
 
 PATHS = ['/a', '/ab', '/abc', '/a/b', '/a/c', '/foo', '/foobar', '/b',
-         '/x/y']
+         '/x/y',
+         # a comma is a plain character outside braces; an address that is
+         # no well-formed pattern still equals itself
+         '/a,b', '/a[']
 PATTERNS = ['/a*', '/a?', '/?b', '/[a-c]b', '/[!a]b', '/{a,foo}',
             '/{foo,foobar}', '/a/*', '/*/b', '/*', '/fo[!x]bar', '/foo*',
             '/*bar', '/a[a-c]c', '/ab[!c]', '/?', '/a/[bc]', '/{ab,abc}',
-            '/fo?', '/*b*', '/[a-b]', '/x/*', '/x/?']
+            '/fo?', '/*b*', '/[a-b]', '/x/*', '/x/?', '/{a', '/a,*']
 SRCS = [['127.0.0.1', 7001], ['127.0.0.1', 7002], ['10.0.0.5', 7001]]
 LIB_PORT = 57120
 XPORT = 57130
